@@ -57,6 +57,8 @@ class HyteraIPSC:
         self.reserved_2a: bytes = HyteraIPSC.DEFAULT_RESERVED_2A
         self.reserved_2b: bytes = HyteraIPSC.DEFAULT_RESERVED_2B
         self.reserved_1: bytes = HyteraIPSC.DEFAULT_RESERVED_1
+        # 34th byte of IPSC payload, 33 bytes are the burst
+        self.payload_pad: bytes = HyteraIPSC.DEFAULT_RESERVED_1
 
     def __repr__(self) -> str:
         return (
@@ -90,7 +92,8 @@ class HyteraIPSC:
         color_code = int.from_bytes(ipsc[20:22], "little") & 0x0F
         frame_type = FrameType(int.from_bytes(ipsc[22:24], "little"))
         reserved_2a = ipsc[24:26]
-        payload = byteswap_bytes(ipsc[26:60])[:-1]
+        payload_34 = byteswap_bytes(ipsc[26:60])
+        payload = payload_34[:-1]
         reserved_2b = ipsc[60:62]
         call_type = CallType(int.from_bytes(ipsc[62:63], "little"))
         # radio ids are 24-bit, carried in the upper three bytes of little-endian 32-bit field
@@ -116,6 +119,7 @@ class HyteraIPSC:
         ipsc.reserved_2a = reserved_2a
         ipsc.reserved_2b = reserved_2b
         ipsc.reserved_1 = reserved_1
+        ipsc.payload_pad = payload_34[-1:]
         return ipsc
 
     @staticmethod
@@ -148,6 +152,7 @@ class HyteraIPSC:
             if isinstance(ipsc.reserved_1b, int)
             else ipsc.reserved_1b
         )
+        _ipsc.payload_pad = byteswap_bytes(ipsc.ipsc_payload)[-1:]
 
         return _ipsc
 
@@ -166,9 +171,9 @@ class HyteraIPSC:
             + self.reserved_2a[0:2]
             + byteswap_bytes(
                 # 33 bytes of burst + 1 byte of padding
-                (self.payload + b"\x00")[0:34]
+                (self.payload + self.payload_pad[0:1])[0:34]
                 if isinstance(self.payload, bytes)
-                else (self.payload.as_bytes() + b"\x00")
+                else (self.payload.as_bytes() + self.payload_pad[0:1])
             )
             + self.reserved_2b[0:2]
             + self.call_type.value.to_bytes(1, byteorder="little")
